@@ -3,7 +3,7 @@
    (round trip), C17 (idempotence), C01 (totality) and C06 (output size).
    `is_run l f n` (Spec/CmSpec.v): a MAXIMAL run of exactly n >= 1 bytes f occurs in l. *)
 From Coq Require Import List NArith Bool Strings.String.
-From V Require Import Base.Bytes Base.Res Model.Ast Model.Cm Spec.CmSpec Spec.EscapeSpec Proofs.CmProofs Proofs.CmTotal.
+From V Require Import Base.Bytes Base.Res Model.Ast Model.Cm Spec.CmSpec Spec.EscapeSpec Proofs.CmProofs Proofs.CmTotal Proofs.CmUtf8.
 Import ListNotations.
 Local Open Scope list_scope.
 
@@ -51,6 +51,26 @@ Print Assumptions CmLeaf_fence_safe.
 Theorem CmLeaf_has_run_spec : forall l f n, has_run l f n = true <-> is_run l f n.
 Proof. exact has_run_spec. Qed.
 Print Assumptions CmLeaf_has_run_spec.
+
+(* 5. cm_utf8, for `output` in every escaping mode (Text nodes: Normal; destinations: Url; titles:
+      Title; code, HTML, math: Literal), wrap flag on or off, when no line wrapping can happen
+      (render.width = 0; Cm.output takes the width as its first argument): if the vector written so far
+      is valid UTF-8, the prefix is ASCII and the buffer is valid UTF-8, the vector afterwards is valid
+      UTF-8.  What outc inserts (backslash, percent escape, numeric entity), the prefix and the
+      pending newlines are ASCII and are inserted only where an ASCII byte of the buffer stands.
+      Not covered: width > 0 (the rewrite at last_breakable). *)
+Theorem CmLeaf_cm_output_utf8 : forall buf wrap e s,
+  utf8_valid (rev (rv s)) = true ->
+  forallb is_ascii (rprefix s) = true ->
+  utf8_valid buf = true ->
+  utf8_valid (rev (rv (output 0%N buf wrap e s))) = true.
+Proof. exact cm_output_utf8. Qed.
+Print Assumptions CmLeaf_cm_output_utf8.
+
+(* outc by itself: it inserts ASCII bytes only, and only for an ASCII byte *)
+Theorem CmLeaf_outc_ascii_only : outc_ok (outc 0%N).
+Proof. exact outc_is_ok. Qed.
+Print Assumptions CmLeaf_outc_ascii_only.
 
 (* 6. totality, partial: on trees satisfying the shape clauses K1-K3 of Spec/CmSpec.v (items under
       lists, non-empty code literals, cells under rows / header rows under tables) the model returns
